@@ -2316,6 +2316,9 @@ func runResp(ctx *Ctx) {
 				items = dialItems
 			}
 			respDialCase(ctx, cset, cliRT{fail: true}, inject)
+			if !inject {
+				respDialCase(ctx, cset, cliRT{echo: true}, inject)
+			}
 			for _, h := range hdrs {
 				respDialCase(ctx, cset, cliRT{hdr: h}, inject)
 				for _, it := range items {
